@@ -1052,7 +1052,7 @@ class Db2SqlDialect(AnsiSqlDialect):
             "current_schema",
             "current_time",
             "current_timestamp",
-            "currval1",
+            "currval",
             "cursor",
             "data",
             "database",
@@ -1079,7 +1079,7 @@ class Db2SqlDialect(AnsiSqlDialect):
             "encoding",
             "encryption",
             "end",
-            "end-exec2",
+            "end-exec",
             "ending",
             "erase",
             "escape",
@@ -1094,7 +1094,7 @@ class Db2SqlDialect(AnsiSqlDialect):
             "fetch",
             "fieldproc",
             "final",
-            "first1",
+            "first",
             "for",
             "free",
             "from",
@@ -1133,7 +1133,7 @@ class Db2SqlDialect(AnsiSqlDialect):
             "key",
             "label",
             "language",
-            "last1",
+            "last",
             "lc_ctype",
             "leave",
             "left",
@@ -1156,7 +1156,7 @@ class Db2SqlDialect(AnsiSqlDialect):
             "modifies",
             "month",
             "months",
-            "next1",
+            "next",
             "nextval",
             "no",
             "none",
@@ -1166,14 +1166,14 @@ class Db2SqlDialect(AnsiSqlDialect):
             "numparts",
             "obid",
             "of",
-            "old1",
+            "old",
             "on",
             "open",
             "optimization",
             "optimize",
             "or",
             "order",
-            "organization1",
+            "organization",
             "out",
             "outer",
             "package",
@@ -1184,13 +1184,13 @@ class Db2SqlDialect(AnsiSqlDialect):
             "partitioned",
             "partitioning",
             "path",
-            "period1",
+            "period",
             "piecesize",
             "plan",
             "precision",
             "prepare",
             "prevval",
-            "prior1",
+            "prior",
             "priqty",
             "privileges",
             "procedure",
@@ -1251,9 +1251,9 @@ class Db2SqlDialect(AnsiSqlDialect):
             "style",
             "summary",
             "synonym",
-            "sysdate1",
+            "sysdate",
             "system",
-            "systimestamp1",
+            "systimestamp",
             "table",
             "tablespace",
             "then",
